@@ -169,6 +169,7 @@ func main() {
 		}
 		rs := runSeed(*seed, idx)
 		rng := rand.New(rand.NewSource(rs))
+		scen.GenIdx = idx
 		sc := fam.Gen(scen.GenCtx{Rng: rng, Prop: *prop, Tier: *tier, Idx: idx, Seed: *seed})
 		raw, err := json.Marshal(sc)
 		if err != nil {
